@@ -32,8 +32,11 @@ Record node := {
   n_path : str;                    (* Case.path: the path template *)
   n_pp : comp;                     (* path_parameters *)
   n_query : comp;                  (* query *)
-  n_params : list (N * str);       (* operation.iter_parameters(): (location, name); 0 = path, 3 = query *)
-  n_linked : list (N * str);       (* ground truth: the parameters a link provided *)
+  n_headers : comp;                (* headers *)
+  n_cookies : comp;                (* cookies *)
+  n_params : list (N * str);       (* operation.iter_parameters(): (location, name); 0 = path, 1 = header, 2 = cookie, 3 = query;
+                                      the same name may be declared in several locations *)
+  n_linked : list (N * str);       (* ground truth: the (location, name) pairs a link provided *)
   n_status : option N }.           (* status of the recorded response; None = no interaction / no response *)
 
 Definition history := list node.   (* ScenarioRecorder.cases in insertion order, with interactions folded in *)
@@ -195,12 +198,28 @@ Definition override_names (c : comp) : list str :=
 
 Definition str_mem (k : str) (l : list str) : bool := existsb (str_eqb k) l.
 
-(* checks.py:418-424; locations other than path (0) and query (3) are outside the model: never overridden *)
+(* checks.py:418-424: every parameter is looked up in the override container of ITS OWN location
+   (LOCATION_TO_CONTAINER[parameter.location]); a location other than the four (body) is never overridden *)
+Definition container_of (n : node) (loc : N) : option comp :=
+  if N.eqb loc 0 then Some (n_pp n)
+  else if N.eqb loc 1 then Some (n_headers n)
+  else if N.eqb loc 2 then Some (n_cookies n)
+  else if N.eqb loc 3 then Some (n_query n)
+  else None.
 Definition param_overridden (n : node) (p : N * str) : bool :=
-  if N.eqb (fst p) 0 then str_mem (snd p) (override_names (n_pp n))
-  else if N.eqb (fst p) 3 then str_mem (snd p) (override_names (n_query n))
-  else false.
+  match container_of n (fst p) with
+  | Some c => str_mem (snd p) (override_names c)
+  | None => false
+  end.
 Definition overrides_all (n : node) : bool := forallb (param_overridden n) (n_params n).
+
+(* SENTINEL, not the code: the name-only rule - one flat set of the overridden NAMES of all four containers, the
+   location of the parameter is forgotten, so a name a link supplied in one location vouches for a generated
+   parameter of the same name in another one.  Kept so that a regression to it is recognised by name. *)
+Definition all_override_names (n : node) : list str :=
+  override_names (n_pp n) ++ override_names (n_query n) ++ override_names (n_headers n) ++ override_names (n_cookies n).
+Definition param_overridden_by_name (n : node) (p : N * str) : bool := str_mem (snd p) (all_override_names n).
+Definition overrides_all_by_name (n : node) : bool := forallb (param_overridden_by_name n) (n_params n).
 
 (* ---------- the checks ---------- *)
 Inductive exn := AssertionError | KeyError | Diverges.
@@ -282,6 +301,34 @@ Definition ensure_resource_availability (h : history) (c : node) (st : N) : verd
          end
        end.
 
+(* the same check with the 'all parameters come from links' test as a parameter *)
+Definition ensure_resource_availability_with (ov : node -> bool) (h : history) (c : node) (st : N) : verdict :=
+  if negb ((400 <=? st) && (st <? 500)) then Pass
+  else match find_parent h (n_id c) with
+       | FPAssert => Raises AssertionError
+       | FPNone => Pass
+       | FPSome p =>
+         match find_response h (n_id p) with
+         | None => Pass
+         | Some ps =>
+           if str_eqb (upper_ascii (n_method p)) M_POST && in_2xx_3xx (Some ps) then
+             match is_prefix_n p c with
+             | None => Raises KeyError
+             | Some false => Pass
+             | Some true =>
+               if ov c then
+                 match find_related h (n_id c) with
+                 | None => Raises Diverges
+                 | Some rel => avail_loop h c (n_id p) rel
+                 end
+               else Pass
+             end
+           else Pass
+         end
+       end.
+(* SENTINEL, not the code: the check with the name-only rule *)
+Definition ensure_resource_availability_by_name := ensure_resource_availability_with overrides_all_by_name.
+
 Definition reported (v : verdict) : bool := match v with Reported _ => true | _ => false end.
 
 (* ================= reference predicates, from the property text ================= *)
@@ -338,6 +385,9 @@ Definition uaf_allowed (h : history) (c : node) (st : N) : bool :=
 Definition uaf_required (h : history) (c : node) (st : N) : bool :=
   uaf_allowed h c st && negb ((500 <=? st) && (st <? 600)).
 
+(* the declared parameter (location, name) was provided by a link: the location counts, not only the name *)
+Definition linked_at (c : node) (p : N * str) : bool :=
+  existsb (fun q => N.eqb (fst p) (fst q) && str_eqb (snd p) (snd q)) (n_linked c).
 Definition all_linked (c : node) : bool :=
   forallb (fun p => existsb (fun q => N.eqb (fst p) (fst q) && str_eqb (snd p) (snd q)) (n_linked c)) (n_params c).
 
